@@ -7,8 +7,8 @@ CONSTANTS
   MaxRestarts = 1
   MaxCycles = 2
   MaxLog = 16
-  KeyByCtx = FALSE
-  CompactByRef = FALSE
+  KeyByCtx = TRUE
+  CompactByRef = TRUE
   Panics = TRUE
   StopLast = TRUE
   StampSource = TRUE
